@@ -171,12 +171,20 @@ func (m *PublishMessage) Decode(src []byte) (int, error) {
 	// The packet identifier field is only present in the PUBLISH packets where the
 	// QoS level is 1 or 2
 	if m.QoS() != 0 {
+		if len(src[total:]) < 2 {
+			return total, fmt.Errorf("publish/Decode: Insufficient buffer size. Expecting %d, got %d", 2, len(src[total:]))
+		}
+
 		//m.packetId = binary.BigEndian.Uint16(src[total:])
 		m.packetID = src[total : total+2]
 		total += 2
 	}
 
 	l := int(m.remlen) - (total - hn)
+	if l < 0 {
+		return total, fmt.Errorf("publish/Decode: Remaining length (%d) is shorter than the variable header (%d)", m.remlen, total-hn)
+	}
+
 	m.payload = src[total : total+l]
 	total += len(m.payload)
 
